@@ -42,10 +42,10 @@ DistPlacement(n, gs) ==
   [i \in 1..n |-> IF (i - 1) < per * use THEN gs[((i - 1) \div per) + 1] ELSE gs[last + 1]]
 
 DoAlloc(pid, d, n) ==
-  /\ WithinCap(Targets(d), n)
+  /\ FitsPool(Targets(d), n)
   /\ IF Cardinality(FreeOn(Targets(d))) >= n
      THEN \E ps \in Picks(FreeOn(Targets(d)), n) : Alloc(pid, d, ps)
-     ELSE OutOfMemory(Targets(d), n)
+     ELSE OutOfMemory(Targets(d), n, TRUE)
 
 DoFree(b) ==
   LET pid == bufs[b].pid
@@ -66,7 +66,7 @@ DoRemap(pid, v, ds) ==
      THEN IF PickAny /\ \A i \in 1..n : ds[i] = ds[1]
           THEN \E ps \in Picks(FreeOn(Targets(ds[1])), n) : Remap(pid, v, ds, ps, dv)
           ELSE Remap(pid, v, ds, [i \in 1..n |-> KthFree(FreeOn(Targets(ds[i])), Cardinality({j \in 1..i : ds[j] = ds[i]}))], dv)
-     ELSE \E t \in T : OutOfMemory({t}, n)
+     ELSE \E t \in T : OutOfMemory({t}, n, FALSE)
 
 \* the calls the environment may issue in the current state (arguments valid; capacity is checked by Do)
 OpsNow ==
@@ -95,7 +95,7 @@ Do(o) ==
                          THEN \E p \in FreeOn({o.dev}) :
                                 /\ (PickAny \/ \A q \in FreeOn({o.dev}) : q >= p)
                                 /\ PrepareMigration(bufs[o.b].pid, bufs[o.b].v + o.off, o.dev, p)
-                         ELSE OutOfMemory({o.dev}, 1)
+                         ELSE OutOfMemory({o.dev}, 1, FALSE)
 
 Tick == ~crashed /\ nops < MaxOps /\ nops' = nops + 1
 AllocStep == Tick /\ \E o \in OpsNow : o.a = "Alloc" /\ Do(o)
